@@ -263,12 +263,19 @@ func (w *World) migrateLetter(arg string) bool {
 type VerSnap struct {
 	Bases []int64
 	Vers  []int
+	Sizes []int64 // size of the log file: a 0-byte file has no version yet
 	Live  []int64
 }
 
 func (w *World) SnapVersions() VerSnap {
 	b, v := SegVersions(w.Dir)
-	return VerSnap{Bases: b, Vers: v, Live: offsOf(w.M.Live)}
+	sz := make([]int64, len(b))
+	for i, base := range b {
+		if st, err := os.Stat(filepath.Join(w.Dir, fmt.Sprintf("%020d.log", base))); err == nil {
+			sz[i] = st.Size()
+		}
+	}
+	return VerSnap{Bases: b, Vers: v, Sizes: sz, Live: offsOf(w.M.Live)}
 }
 
 func segOf(bases []int64, off int64) int {
@@ -289,12 +296,19 @@ func (w *World) CheckVersionsAfter(letter string, before VerSnap, keep bool) {
 	case "P":
 		// segments that did not exist before were created by rollover
 		old := map[int64]int{}
+		oldSize := map[int64]int64{}
 		for i, b := range before.Bases {
 			old[b] = before.Vers[i]
+			oldSize[b] = before.Sizes[i]
 		}
 		for i, b := range after.Bases {
 			if v, ok := old[b]; ok {
-				if v != after.Vers[i] {
+				if oldSize[b] == 0 {
+					// a 0-byte head had no version yet: what is written into it is new
+					if after.Sizes[i] > 0 && after.Vers[i] != w.Cfg.Ver {
+						w.failf("C17", "Publish into the empty 0-byte head segment %d wrote version %d, NewSegmentsVersion is %d", b, after.Vers[i], w.Cfg.Ver)
+					}
+				} else if v != after.Vers[i] {
 					w.failf("C17", "Publish changed the version of segment %d from %d to %d", b, v, after.Vers[i])
 				}
 			} else if after.Vers[i] != w.Cfg.Ver {
@@ -319,7 +333,8 @@ func (w *World) CheckVersionsAfter(letter string, before VerSnap, keep bool) {
 			wasBase[b] = true
 		}
 		for i, b := range after.Bases {
-			if !wasBase[b] && b == w.M.Next && after.Vers[i] != w.Cfg.Ver {
+			// (a 0-byte file has no version yet: judged by the next Publish into it)
+			if !wasBase[b] && b == w.M.Next && after.Sizes[i] > 0 && after.Vers[i] != w.Cfg.Ver {
 				w.failf("C17", "Delete(%s) created the new head segment %d in version %d, NewSegmentsVersion is %d", arg, b, after.Vers[i], w.Cfg.Ver)
 			}
 		}
